@@ -172,6 +172,8 @@ pub struct Exec {
     /// a hang or an abort of the process loses nothing
     pub log_prefix: Option<String>,
     cur_file: Option<std::fs::File>,
+    /// abstract reply mode (see the driver): canonical diagrams instead of indices, no snapshots
+    pub abs: bool,
 }
 
 impl Exec {
@@ -206,10 +208,11 @@ impl Exec {
             stats: HashMap::new(),
             nontrivial: HashSet::new(),
             beacon,
-            max_failures: 50,
+            max_failures: 300,
             cr_memo: HashMap::new(),
             log_prefix: None,
             cur_file: None,
+            abs: false,
         }
     }
 
@@ -226,7 +229,9 @@ impl Exec {
     }
 
     pub fn fail(&mut self, props: &[&'static str], msg: String) {
-        if self.failures.len() < self.max_failures {
+        // at most 6 reports per tag set, so that one noisy oracle cannot crowd out the others
+        let same = self.failures.iter().filter(|f| f.props == props).count();
+        if same < 6 && self.failures.len() < self.max_failures {
             let start = self.case_starts.last().copied().unwrap_or(0);
             let line_no = self.lines.len() - start;
             let f = Failure {
@@ -430,6 +435,46 @@ impl Exec {
             }
         }
         self.exp.push(exp);
+    }
+
+    /// canonical serialisation of the diagram below a handle (same algorithm as the driver's `canonRef`)
+    fn canon(&self, r: Ref, vis: &mut Vec<u32>, depth: u32) -> String {
+        let bdd = self.bdd();
+        if r == bdd.one {
+            return "1".into();
+        }
+        if r == bdd.zero {
+            return "0".into();
+        }
+        if depth > 200 {
+            return "?".into();
+        }
+        let sign = if r.is_negated() { "~" } else { "" };
+        if let Some(k) = vis.iter().position(|&i| i == r.index()) {
+            return format!("{}#{}", sign, k);
+        }
+        let st = bdd.storage();
+        let i = r.index() as usize;
+        if i == 0 || i >= st.capacity() {
+            return "?".into();
+        }
+        let n = *st.cell_value(i);
+        drop(st);
+        let k = vis.len();
+        vis.push(r.index());
+        let hi = self.canon(n.high, vis, depth + 1);
+        let lo = self.canon(n.low, vis, depth + 1);
+        format!("{}n{}(x{},{},{})", sign, k, n.variable, hi, lo)
+    }
+
+    /// how a produced handle is printed (call after it has been pushed to `env`)
+    fn show_handle(&self, r: Ref) -> String {
+        if self.abs {
+            let k = self.env.iter().position(|&x| x == r).unwrap_or(self.env.len());
+            format!("{} =h{}", self.canon(r, &mut vec![], 0), k)
+        } else {
+            show_ref(r)
+        }
     }
 
     fn bind_panic(&mut self) {
@@ -653,6 +698,10 @@ impl Exec {
             return "bad-op".into();
         }
         match toks[0] {
+            "mode" => {
+                self.abs = toks.get(1) == Some(&"abstract");
+                "ok".into()
+            }
             "new" | "newdefault" => {
                 let r = catch_unwind(AssertUnwindSafe(|| {
                     if toks[0] == "new" {
@@ -729,7 +778,7 @@ impl Exec {
         match r {
             Ok(r) => {
                 self.bind(r, expected, props);
-                format!("r {}", show_ref(r))
+                format!("r {}", self.show_handle(r))
             }
             Err(p) => {
                 let c = panic_class(p);
@@ -782,7 +831,7 @@ impl Exec {
                     _ => None,
                 };
                 let r = self.produce(&["C15"], e, |b| b.mk_node(v, rlo, rhi));
-                if rlo == rhi && r != format!("r {}", show_ref(rlo)) && !r.starts_with("panic") {
+                if rlo == rhi && !r.starts_with("panic") && self.env.last() != Some(&rlo) {
                     self.fail(&["C15"], format!("mk_node with equal children returned {}", r));
                 }
                 r
@@ -967,8 +1016,9 @@ impl Exec {
                             _ => (None, None),
                         };
                         self.bind(a, ea, &["C08"]);
+                        let sa = self.show_handle(a);
                         self.bind(b, eb, &["C08"]);
-                        format!("r {} {}", show_ref(a), show_ref(b))
+                        format!("r {} {}", sa, self.show_handle(b))
                     }
                     Err(p) => {
                         let c = panic_class(p);
@@ -1154,7 +1204,7 @@ impl Exec {
                     Ok(n) => {
                         let reach = self.reach(&[rf]).len() as u64;
                         if n != reach {
-                            self.fail(&["C04", "C07"], format!("size({}) = {}, {} nodes are reachable", show_ref(rf), n, reach));
+                            self.fail(&["C04", "C07", "C16"], format!("size({}) = {}, {} nodes are reachable", show_ref(rf), n, reach));
                         }
                         if let (Some(t), Some(x)) = (tt, self.e(f)) {
                             let want = t.bdd_size(x);
@@ -1183,7 +1233,11 @@ impl Exec {
                         }
                         let mut v: Vec<u32> = set.into_iter().collect();
                         v.sort();
-                        format!("{:?}", v)
+                        if self.abs {
+                            v.len().to_string()
+                        } else {
+                            format!("{:?}", v)
+                        }
                     }
                     Err(p) => format!("panic {}", panic_class(p)),
                 }
@@ -1254,7 +1308,11 @@ impl Exec {
                             }
                             self.nontrivial.insert(fnv1a(&format!("bracket {:x}", x)));
                         }
-                        s
+                        if self.abs {
+                            self.canon(rf, &mut vec![], 0)
+                        } else {
+                            s
+                        }
                     }
                     Err(p) => format!("panic {}", panic_class(p)),
                 }
@@ -1285,13 +1343,29 @@ impl Exec {
                                 Err(m) => self.fail(&["C16"], format!("DOT does not re-read: {}", m)),
                             }
                         }
-                        crate::reparse::canon_dot(&s)
+                        if self.abs {
+                            format!("dot {}", self.reach(&rs).len())
+                        } else {
+                            crate::reparse::canon_dot(&s)
+                        }
                     }
                     Err(p) => format!("panic {}", panic_class(p)),
                 }
             }
-            "dump" => self.st_snapshot(),
-            "digest" => fnv1a(&self.st_snapshot()).to_string(),
+            "dump" => {
+                if self.abs {
+                    "-".into()
+                } else {
+                    self.st_snapshot()
+                }
+            }
+            "digest" => {
+                if self.abs {
+                    "-".into()
+                } else {
+                    fnv1a(&self.st_snapshot()).to_string()
+                }
+            }
             _ => "bad-op".into(),
         }
     }
